@@ -1,0 +1,78 @@
+//go:build verif
+
+// Contracts for the deductive verifier in /verif (comment-only; compiled only with -tags verif).
+package store
+
+// ---------------------------------------------------------------------------------------------------------------------
+// C10: the ranking of candidates.  before(a, b): a ranks no later than b -- more votes first, ties by ascending address.  It is a total
+// preorder (votes are integers, bytes.Compare embeds into the reals), antisymmetric on candidates with distinct addresses.
+//@ func min
+//@   props C10
+//@   modifies nothing
+//@   ensures result <= first && forall(i, 0, len(args), result <= args[i]) && (result == first || exists(i, 0, len(args), result == args[i]))
+//@   invariant @loop 0: 0 <= $k && $k <= $n && first <= old(first) && forall(i, 0, $k, first <= args[i]) && (first == old(first) || exists(i, 0, $k, first == args[i]))
+//@   nopanic
+
+//@ pred before(a *Candidate, b *Candidate) = val(a.Total) > val(b.Total) || (val(a.Total) == val(b.Total) && cmpBytes(a.Address, b.Address) <= 0)
+//@ pred wfCands(cs []*Candidate) = forall(i, 0, len(cs), cs[i] != nil && cs[i].Total != nil)
+
+// ranking: a partial selection sort in place.  The result is the first min(topSize, n) positions of the permuted input, sorted, and
+// every candidate left out ranks no earlier than every candidate selected: the result equals a full sort cut to topSize.
+//@ func (*VoteTop).ranking
+//@   props C10
+//@   requires topSize >= 1 && wfCands(candidates) && len(candidates) <= 1<<30
+//@   modifies elems(candidates)
+//@   ensures len(result) == min(topSize, len(candidates)) && wfCands(candidates)
+//@   ensures forall(a, 0, len(result), result[a] == candidates[a])
+//@   ensures #ord: forall(a, 1, len(result), before(candidates[a-1], candidates[a]))
+//@   ensures #ord: forall(a, 0, len(result), forall(b, len(result), len(candidates), before(candidates[a], candidates[b])))
+//@   ensures #perm: forall(a, 0, len(candidates), exists(b, 0, len(candidates), candidates[b] == old(candidates[a])))
+//@   invariant @loop 0: 0 <= i && i <= minCnt && minCnt == min(topSize, length) && length == len(candidates) && length >= 2 && len(result) == minCnt && fresh(result) && wfCands(candidates)
+//@   invariant @loop 0: forall(a, 0, i, result[a] == candidates[a])
+//@   invariant @loop 0 #ord: forall(a, 1, i, before(candidates[a-1], candidates[a]))
+//@   invariant @loop 0 #ord: forall(a, 0, i, forall(b, i, length, before(candidates[a], candidates[b])))
+//@   invariant @loop 0 #perm: forall(a, 0, length, exists(b, 0, length, candidates[b] == old(candidates[a])))
+//@   invariant @loop 0: frameElems(*Candidate, candidates)
+//@   invariant @loop 1: 0 <= i && i < minCnt && i + 1 <= j && j <= length && minCnt == min(topSize, length) && length == len(candidates) && len(result) == minCnt && fresh(result) && wfCands(candidates)
+//@   invariant @loop 1: forall(a, 0, i, result[a] == candidates[a])
+//@   invariant @loop 1 #ord: forall(a, 1, i, before(candidates[a-1], candidates[a]))
+//@   invariant @loop 1 #ord: forall(a, 0, i, forall(b, i, length, before(candidates[a], candidates[b])))
+//@   invariant @loop 1 #ord: forall(b, i + 1, j, before(candidates[i], candidates[b]))
+//@   invariant @loop 1 #perm: forall(a, 0, length, exists(b, 0, length, candidates[b] == old(candidates[a])))
+//@   invariant @loop 1: frameElems(*Candidate, candidates)
+//@   nopanic
+
+// a ranked list: every entry present with its vote count, in ranking order (strictly: addresses in a ranked list are distinct)
+//@ pred sortedTop(cs []*Candidate) = wfCands(cs) && forall(a, 1, len(cs), before(cs[a-1], cs[a]))
+// same (address, votes) pair
+//@ pred sameCand(a *Candidate, b *Candidate) = a.Address == b.Address && val(a.Total) == val(b.Total)
+
+//@ func (*Candidate).Copy
+//@   props C10
+//@   requires candidate != nil && candidate.Total != nil
+//@   modifies nothing
+//@   ensures result != nil && fresh(result) && result.Total != nil && fresh(result.Total) && sameCand(result, candidate)
+//@   nopanic
+
+// Reset: the list becomes a deep copy of the given candidates, in the same order
+//@ func (*VoteTop).Reset
+//@   props C10
+//@   requires top != nil && wfCands(candidates)
+//@   modifies top.Top
+//@   ensures len(top.Top) == len(candidates) && fresh(top.Top) && wfCands(top.Top)
+//@   ensures forall(a, 0, len(candidates), sameCand(top.Top[a], candidates[a]))
+//@   invariant @loop 0: 0 <= index && index <= len(candidates) && len(top.Top) == len(candidates) && fresh(top.Top) && wfCands(candidates)
+//@   invariant @loop 0: forall(a, 0, index, top.Top[a] != nil && top.Top[a].Total != nil && sameCand(top.Top[a], candidates[a]))
+//@   invariant @loop 0: frameElems(*Candidate)
+//@   nopanic
+
+// Rank: the published list is the given candidates fully sorted and cut to topSize
+//@ func (*VoteTop).Rank
+//@   props C10
+//@   requires top != nil && topSize >= 1 && wfCands(candidates) && len(candidates) <= 1<<30
+//@   modifies top.Top, elems(candidates)
+//@   ensures len(top.Top) == min(topSize, len(candidates)) && sortedTop(top.Top)
+//@   ensures forall(a, 0, len(top.Top), sameCand(top.Top[a], candidates[a]))
+//@   ensures forall(a, 0, len(top.Top), forall(b, len(top.Top), len(candidates), before(candidates[a], candidates[b])))
+//@   ensures forall(a, 0, len(candidates), exists(b, 0, len(candidates), candidates[b] == old(candidates[a])))
+//@   nopanic
